@@ -155,7 +155,8 @@ def p_index(rng, metas, objs):
         elif c < 0.8:
             idx.append([rng.randrange(0, n) for _ in range(rng.randint(1, 3))])
         elif c < 0.9:
-            idx.append([rng.random() < 0.6 for _ in range(n)])
+            m_ = rng.random()   # `pts[line.contains(pts)]`: often every element qualifies, sometimes none
+            idx.append([True] * n if m_ < 0.25 else [False] * n if m_ < 0.33 else [rng.random() < 0.6 for _ in range(n)])
         elif c < 0.95:
             idx.append(None)
         else:
@@ -566,7 +567,8 @@ Op("u_matvec", [SQUARE, S(("point", "line", "plane"))], lambda a, p: U.matvec(a[
    api="utils.matvec")
 Op("u_outer", [S(("point", "line", "plane"))] * 2, lambda a, p: U.outer(a[0].array, a[1].array), api="utils.outer")
 Op("u_roots", [], lambda a, p: U.roots(p["p"]), p_roots, api="utils.roots")
-Op("u_roots_arr", [S(("point", "line", "plane"), coll=False)], lambda a, p: U.roots(a[0].array), api="utils.roots")
+Op("u_roots_arr", [S(("point", "line", "plane"), coll=False)], lambda a, p: U.roots(a[0].array), weight=2, api="utils.roots")
+Op("u_roots_tensor", [S(("point", "line", "plane"), coll=False)], lambda a, p: U.roots(a[0]), api="utils.roots")
 Op("u_distinct", [COLL], lambda a, p: list(U.distinct(a[0]))[:4], api="utils.distinct")
 Op("u_is_scalar", [ANY], lambda a, p: (U.is_numerical_scalar(a[0].array), U.is_numerical_dtype(a[0].dtype)),
    api=("utils.is_numerical_scalar", "utils.is_numerical_dtype"))
